@@ -6,6 +6,7 @@ extern "C" {
 #endif
 enum { SIMVFS_NONE = 0, SIMVFS_IOERR = 1, SIMVFS_FULL = 2, SIMVFS_KILL = 3, SIMVFS_SHORT = 4 };
 #define SIMVFS_KILL_EXIT 99
+#define SIMVFS_FIRED_EXIT 98   /* the forked operation returned normally after its injected error had fired */
 typedef struct { uint64_t calls_total, opens, deletes, reads, writes, truncates, syncs, fired; } simvfs_stats;
 void simvfs_install(void);
 // start counting calls for one operation; the fault (if any) fires at the at_call-th counted call (1-based)
